@@ -113,7 +113,16 @@ pub fn run(toks: &[&str]) -> Lines {
     match toks[0] {
         "dh" => out.push(("obs", compute_data_hash(&unhex(toks[1])).hex())),
         "ih" => out.push(("obs", compute_internal_node_hash(&unhex(toks[1])).hex())),
-        "hmac" => out.push(("obs", h32(toks[1]).hmac(h32(toks[2])).hex())),
+        "hmac" => {
+            let (h, k) = (h32(toks[1]), h32(toks[2]));
+            let got = h.hmac(k);
+            out.push(("obs", got.hex()));
+            // hmac is the keyed BLAKE3 of the hash bytes under the key, for every key (the all-zero key included: "no key" is the
+            // callers' convention, not the function's)
+            let key: [u8; 32] = k.as_bytes().try_into().unwrap();
+            let want = blake3::keyed_hash(&key, h.as_bytes());
+            ok(&mut out, got.as_bytes() == want.as_bytes(), "hmac-is-not-keyed-blake3-of-the-hash-under-the-key");
+        },
         "range" => {
             let hs: Vec<MerkleHash> = toks[1].split(',').filter(|x| !x.is_empty() && *x != "-").map(h32).collect();
             out.push(("obs", range_hash_from_chunks(&hs).hex()));
